@@ -18,6 +18,10 @@ class Unsupported(Exception):
     pass
 
 
+class Narrowing(Exception):
+    """a value is converted to a narrower floating-point type inside the witness (definite precision loss, not an abstraction limit)"""
+
+
 # ---- polynomials: {monomial: Fraction}, monomial = tuple of (var, exp) sorted by var ----------------------------
 
 def p_const(c):
@@ -417,7 +421,9 @@ class PathEval:
             cnd = parts[0].split()[-1]
             c = self._cond(cnd, vals, self._dec_proxy)
             r = self._value(parts[1].split()[-1] if c else parts[2].split()[-1], vals, depth + 1)
-        elif op in ("fpext", "fptrunc"):
+        elif op == "fptrunc":
+            raise Narrowing(t.strip())
+        elif op == "fpext":
             m = re.search(r"(\S+) to ", t)
             r = self._value(m.group(1), vals, depth + 1)
         elif op == "phi":
